@@ -1,3 +1,4 @@
 SPECIFICATION Spec
-INVARIANTS MeetsDemand NothingOnFailure ExactOnSuccess UnwritableIsErr Torn EmitPlans
+CONSTANT FlushBeforeReturn = TRUE
+INVARIANTS MeetsDemand NothingOnFailure ExactOnSuccess UnwritableIsErr OkMeansDelivered Torn EmitPlans
 CHECK_DEADLOCK FALSE
